@@ -140,6 +140,38 @@ def gen_cases(ctx, K, hdr, ptr):
     return cases, meta
 
 
+def well_formed(lines):
+    """ps N (begin (put|putc|sync)* end discard?)*  - the shrinker must not invent uses of the stream
+    buffer outside begin()..end() (the object is uninitialised before the first begin())."""
+    if not lines or not lines[0].startswith("ps "):
+        return False
+    state = "idle"
+    for l in lines[1:]:
+        w = l.split()[0]
+        if w == "ps":
+            if state == "open":
+                return False
+            state = "idle"
+        elif w == "begin":
+            if state == "open":
+                return False
+            state = "open"
+        elif w in ("put", "putc", "sync"):
+            if state != "open":
+                return False
+        elif w == "end":
+            if state != "open":
+                return False
+            state = "ended"
+        elif w == "discard":
+            if state != "ended":
+                return False
+            state = "idle"
+        else:
+            return False
+    return True
+
+
 def load_corpus():
     out = []
     d = VERIF / "corpus" / "C20"
@@ -212,7 +244,7 @@ def run_entry(ctx, exe, drv):
         oracle = "!ORACLE" in a or "<no-output" in a
 
         def still(cand, want_oracle=oracle):
-            if not cand or not cand[0].startswith("ps "):
+            if not well_formed(cand):
                 return False
             io, rc, err = ctx.run_lines(exe, ["reset"] + cand, ["entry"])
             if want_oracle:
@@ -253,9 +285,9 @@ def appender_configs(ctx):
     fixed = [
         dict(threads=1, ps=64, cap=64, files=1, rot=0, n=20),
         dict(threads=2, ps=32, cap=4, files=2, rot=3, n=30),
-        dict(threads=4, ps=24, cap=2, files=3, rot=2, n=40),
+        dict(threads=4, ps=24, cap=2, files=3, rot=2, n=40, drain=0),
         dict(threads=4, ps=24, cap=1024, files=1, rot=0, n=400, slow=500),    # backlog: batches > IOV_MAX iovecs
-        dict(threads=2, ps=32, cap=1024, files=2, rot=1, n=600, slow=300),    # rotation every round + backlog
+        dict(threads=2, ps=32, cap=1024, files=2, rot=1, n=600, slow=300, drain=0),    # rotation every round + backlog
         dict(threads=2, ps=4096, cap=16, files=1, rot=4, n=12),
         dict(threads=1, ps=128, cap=1, files=2, rot=0, n=25),
     ]
@@ -269,6 +301,8 @@ def appender_configs(ctx):
                  rot=rng.choice([0, 0, 1, 2, 3, 7]), n=rng.choice([5, 20, 60, 150]), seed=rng.randrange(1, 1 << 30))
         if rng.random() < 0.3:
             c["slow"] = rng.choice([10, 30, 60])
+        if rng.random() < 0.5:
+            c["drain"] = 0          # close() with entries still queued (possibly a full queue)
         cfgs.append(c)
     return ["run " + " ".join("%s=%d" % kv for kv in c.items()) for c in cfgs]
 
@@ -306,10 +340,14 @@ def load_appender_corpus():
 
 
 def run_appender(ctx, exe, drv):
+    close_ok = close_full_probe(ctx, exe)
     cfgs = load_appender_corpus()
     if cfgs:
         ctx.notes.append("corpus runs first (appender mode): %d" % len(cfgs))
     cfgs += appender_configs(ctx)
+    if not close_ok:
+        # close() with a backlog wedges on this tree: keep the remaining runs meaningful by draining first
+        cfgs = [c.replace(" drain=0", "") for c in cfgs]
     dist = {"runs": 0, "threads": {}, "entries": 0, "rounds": 0, "rotations": 0, "entries_spanning_two_writev": 0,
             "max_batch": 0, "max_writev_elems": 0, "trace_lines_replayed": 0, "oracle_failures": 0, "divergences": 0,
             "capacities": {}}
@@ -370,24 +408,31 @@ def run_appender(ctx, exe, drv):
     ctx.cov["distribution"]["appender"] = dist
     ctx.cov["distinct_nontrivial"] += len(nontrivial)
     ctx.cov["samples"].append(cfgs[:3])
-    close_full_probe(ctx, exe)
 
 
 def close_full_probe(ctx, exe):
-    """close() while the queue is full: the stop marker is pushed with futex wait but nobody ever
-    wakes that queue (patches/C20-close-lost-wakeup.diff).  Liveness, not the safety text of C20:
-    recorded, not a violation."""
+    """close() while the queue is FULL.  Before the repair 67478f3 close() pushed the stop marker with
+    futex wait although nothing ever wakes that queue (keep_writing pops without wake): close() slept
+    forever.  The schedule: queue capacity 2, the writer is held in its first descriptor check for
+    400 ms while 2 more entries fill the queue, then close().  Must return, with the oracle satisfied."""
     line = "run threads=1 ps=64 cap=2 files=1 rot=0 n=3 seed=1 drain=0 slow=400"
+    ok = False
     try:
-        r = subprocess.run([str(exe), "appender"], input=line + "\n", capture_output=True, text=True, timeout=8)
+        r = subprocess.run([str(exe), "appender"], input=line + "\n", capture_output=True, text=True, timeout=20)
         blocks, _ = parse_blocks(r.stdout)
         res = "returned; oracle %s" % (blocks[0]["oracle"] if blocks else "rc=%d" % r.returncode)
-        if blocks and blocks[0]["oracle"] != "ok":
-            ctx.failing_input("oracle:appender:close-full", "mode=appender\n%s\n# %s" % (line, blocks[0]["oracle"]))
+        if not blocks or blocks[0]["oracle"] != "ok":
+            ctx.failing_input("oracle:appender:close-full", "mode=appender\n%s\n# %s\n# %s" % (
+                line, blocks[0]["oracle"] if blocks else "harness rc=%d" % r.returncode, r.stderr[-1500:].replace("\n", "\n# ")))
+        else:
+            ok = True
     except subprocess.TimeoutExpired:
-        res = "HANG: close() never returned within 8 s (lost wake-up; candidate repair patches/C20-close-lost-wakeup.diff)"
-        ctx.notes.append("close() on a full queue hangs on this tree: " + line)
+        res = "HANG: close() did not return within 20 s (lost wake-up: stop marker pushed with futex wait, consumer pops without wake)"
+        ctx.failing_input("hang:close-with-full-queue",
+                          "mode=appender\n%s\n# close() called while the queue is full never returns (no result within 20 s)" % line)
     ctx.cov["close_full_queue"] = {"input": line, "result": res}
+    ctx.cov["evaluations"] += 1
+    return ok
 
 
 def run(ctx):
@@ -398,7 +443,8 @@ def run(ctx):
         "part B: the theorem is about the abstract event model (FIFO multi-producer queue with per-producer order = C01's specification); the real appender is tied to it by sampling only (OS-chosen schedules), not by proof",
     ]
     ctx.assumptions += [
-        "page size: 8 | pageSize and pageSize >= 24 for entries longer than INLINE_PAGE_CAPACITY pages (pageSize > 0 otherwise); pageSize 16 is excluded - the real code overruns the table page there (run once per check, see coverage.excluded_point)",
+        "page size: 8 | pageSize and pageSize >= 24 for entries longer than INLINE_PAGE_CAPACITY pages (pageSize > 0 otherwise). pageSize 16 is excluded by hypothesis: the REAL code overruns the 16-byte table page there too (ASan heap-buffer-overflow in LogStreamBuffer::overflow, log_entry.cpp `*_pages++ = page`; run once per check, see coverage.excluded_point); it is reachable only through NewDeletePageAllocator::set_page_size(16) / a custom PageAllocator, outside the documented use (system page size)",
+        "part B proves safety (exactly once, unmixed, order, pages) of an abstract model; liveness of close() is not a theorem - it is covered by the generated obligation gen_queue_pairing (no futex-wait push against a no-wake pop) and by running the close-on-a-full-queue schedule on the real code each time",
         "a zero-size entry handed to AsyncFileAppender::write acts as the stop marker and is outside the stated domain",
     ]
     ctx.gen(["log"])
